@@ -76,6 +76,7 @@ fn main() {
         let line = match kind {
             "queue" => ctl_queue::run(i, &mut rng),
             "srvq" => ctl_srvq::run(i, &mut rng),
+            "srvp" => ctl_srvq::run_pool(i, &mut rng),
             "pool" => ctl_pool::run(i, &mut rng),
             "seq" => ctl_seq::run(i, &mut rng),
             _ => {
